@@ -4,10 +4,22 @@ import json, os, re, subprocess
 from lex import dump, strip_comments
 
 
+def fortran_number(tok):
+    """a Fortran numeric literal in the decimal syntax every other fact uses: kind suffix dropped (1_C_INT, 2.5_C_DOUBLE, 7_4), D exponent -> E"""
+    tok = re.sub(r"_(?:[A-Za-z]\w*|\d+)$", "", tok) if re.match(r"[-+]?[0-9.]", tok) else tok
+    m = re.fullmatch(r"([-+]?[0-9][0-9.]*)[dD]([-+]?[0-9]+)", tok)
+    return m.group(1) + "E" + m.group(2) if m else tok
+
+
 def consts_fortran(txt):
+    """INTEGER (KIND=C_INT), PARAMETER :: A = 1, B = A   (one or several entities per statement, continuation lines joined)"""
+    txt = re.sub(r"![^\n]*", "", txt)
+    txt = re.sub(r"&[ \t]*\n[ \t]*&?", " ", txt)
     res = []
-    for m in re.finditer(r"^\s*(INTEGER|REAL)\s*\(\s*KIND\s*=\s*(\w+)\s*\)\s*,\s*PARAMETER\s*::\s*(\w+)\s*=\s*([^\s!]+)", txt, flags=re.M | re.I):
-        res.append([m.group(3), m.group(4), m.group(1).upper()])
+    for m in re.finditer(r"^\s*(INTEGER|REAL)\s*\(\s*(?:KIND\s*=\s*)?(\w+)\s*\)\s*,\s*PARAMETER\s*::\s*([^\n]+)", txt, flags=re.M | re.I):
+        for ent in re.split(r",(?![^(]*\))", m.group(3)):
+            mm = re.match(r"\s*(\w+)\s*=\s*(\S+)\s*$", ent)
+            if mm: res.append([mm.group(1), fortran_number(mm.group(2)), m.group(1).upper()])
     return res
 
 
@@ -19,13 +31,14 @@ def consts_pascal(txt):
 def idl_number(tok):
     """an IDL numeric literal in the decimal syntax every other fact uses: 1.5D-3 -> 1.5E-3, 0.5D -> 0.5 (lexical normalisation, no arithmetic)"""
     m = re.fullmatch(r"([-+]?[0-9][0-9.]*)[dD]([-+]?[0-9]*)", tok)
-    if not m: return tok
-    return m.group(1) + ("E" + m.group(2) if m.group(2) else "")
+    if m: return m.group(1) + ("E" + m.group(2) if m.group(2) else "")
+    m = re.fullmatch(r"([-+]?[0-9]+)(?:[uU]?[lL]{1,2}|[uU]?[sS]|[bB])", tok)          # integer type suffixes: 5L, 5LL, 5UL, 5S, 5B
+    return m.group(1) if m else tok
 
 
 def consts_idl(txt):
     txt = re.sub(r";[^\n]*", "", txt)
-    return [[m.group(1), idl_number(m.group(2)), "?"] for m in re.finditer(r"^\s*(\w+)\s*=\s*([-+]?[0-9][0-9.eEdD+-]*|[A-Za-z_]\w*)\s*$", txt, flags=re.M)]
+    return [[m.group(1), idl_number(m.group(2)), "?"] for m in re.finditer(r"^\s*(\w+)\s*=\s*([-+]?[0-9][0-9.eEdDuUlLsSbB+-]*|[A-Za-z_]\w*)\s*$", txt, flags=re.M)]
 
 
 def consts_java(txt):
